@@ -288,6 +288,9 @@ protected:
     }
 
     inline bool trackPartitions() const;
+#ifdef OPENSMT_VERIF
+    void verifTraceState(char const * op, std::string const & extra) const;
+#endif
 
     PTRef rewriteMaxArity(PTRef root);
 
